@@ -3,6 +3,14 @@
 //! See /verif/DESIGN.md.
 
 mod checks;
+mod chmod;
+mod files;
+mod fmtscan;
+mod fnmatch;
+mod interp;
+mod policy;
+mod speceval;
+mod sx;
 mod gen;
 mod grammar;
 mod render;
